@@ -189,6 +189,9 @@ pub fn run(mode: Mode) -> i32 {
                         Err(p) => rep.violation(&format!("{prop}:extract_panic:{}", short_loc(&last_panic_loc())), "get_sample panicked", det(json!({"panic": p}))),
                     }
                 }
+                if n % 61 == 5 || case.id.starts_with("big60.multi") {
+                    cli_roundtrip(&rep, case, &dir);
+                }
                 if n % capoff_every == 7 {
                     capoff_cases.lock().unwrap().push((case.id.clone(), case.edits.clone(), case.samples.clone(), case.cfg.clone()));
                 }
@@ -378,4 +381,58 @@ fn ranges_on_archive(rep: &Report, path: &str, case: &Case, thorough: bool) -> u
         rep.violation(&format!("C07:panic:{}", short_loc(&last_panic_loc())), "range/length query panicked", det(json!({"panic": p})));
     }
     q
+}
+
+/// The same round trip through the real `ragc` binary (FASTA files written by the harness, PanSN headers),
+/// so that the drivers in ragc-cli/src/main.rs are covered too.
+fn cli_roundtrip(rep: &Report, case: &Case, dir: &std::path::Path) {
+    let ragc = crate::cli::ragc_bin(false);
+    if !std::path::Path::new(&ragc).exists() { return; }
+    let d = dir.join(format!("cli-{}", case.id));
+    let _ = std::fs::create_dir_all(&d);
+    let det = |extra: serde_json::Value| json!({"case": case.id, "edits": case.edits, "config": case.cfg.json(), "via": "ragc create + getset", "info": extra});
+    let exp = expected(&case.samples);
+    let mut inputs: Vec<String> = Vec::new();
+    let recs_of = |s: &Sample| -> Vec<(String, Vec<u8>)> { s.1.iter().filter(|c| !c.1.is_empty()).map(|c| (format!("{}#{}", s.0, c.0), c.1.clone())).collect() };
+    if case.cfg.single_file {
+        let all: Vec<(String, Vec<u8>)> = case.samples.iter().flat_map(|s| recs_of(s)).collect();
+        crate::cli::write_fasta(&d.join("pan.fa"), &all, 57);
+        inputs.push("pan.fa".into());
+    } else {
+        for (i, s) in case.samples.iter().enumerate() {
+            let r = recs_of(s);
+            if r.is_empty() { continue; }
+            crate::cli::write_fasta(&d.join(format!("in{i}.fa")), &r, 61);
+            inputs.push(format!("in{i}.fa"));
+        }
+    }
+    let (k, sg, mm, t, l, fb) = (case.cfg.k.to_string(), case.cfg.segment_size.to_string(), case.cfg.min_match.to_string(), case.cfg.threads.to_string(), case.cfg.pack_size.to_string(), case.cfg.fallback_frac.to_string());
+    let mut a: Vec<&str> = vec!["create", "-o", "out.agc", "-k", &k, "-s", &sg, "-m", &mm, "-t", &t, "-l", &l, "--fallback-frac", &fb, "-v", "0"];
+    for f in &inputs { a.push(f); }
+    let o = crate::cli::run(&ragc, &a, &d, &[("RAGC_VERIF_ZSTD_CAP", "3")], 180, None);
+    rep.count("cli_round_trips", 1);
+    if o.timed_out { rep.violation("C01:cli_create_hang", "ragc create did not finish", det(json!(null))); }
+    else if o.ok() {
+        for s in &exp {
+            let g = crate::cli::run(&ragc, &["getset", "out.agc", &s.0], &d, &[], 120, None);
+            if !g.ok() {
+                rep.violation("C01:cli_getset_failed", "ragc getset failed on an archive that create reported as written", det(json!({"sample": s.0, "exit": g.code, "stderr": g.stderr.chars().take(200).collect::<String>()})));
+                continue;
+            }
+            let got: Vec<(String, Vec<u8>)> = crate::cli::parse_fasta(&g.stdout);
+            let want: Vec<(String, Vec<u8>)> = s.1.iter().map(|c| (format!("{}#{}", s.0, c.0), c.1.iter().map(|&b| b"ACGTNRYSWKMBDHVU"[b as usize]).collect())).collect();
+            if got != want {
+                let names_ok = got.iter().map(|x| &x.0).collect::<Vec<_>>() == want.iter().map(|x| &x.0).collect::<Vec<_>>();
+                rep.violation(if names_ok { "C01:cli_bases_differ" } else { "C01:cli_contig_list" }, "ragc getset output differs from the FASTA input", det(json!({"sample": s.0, "want_records": want.len(), "got_records": got.len()})));
+            }
+        }
+        let l = crate::cli::run(&ragc, &["listset", "out.agc"], &d, &[], 120, None);
+        let listed: Vec<String> = String::from_utf8_lossy(&l.stdout).lines().map(|x| x.to_string()).collect();
+        if listed != exp.iter().map(|s| s.0.clone()).collect::<Vec<_>>() {
+            rep.violation("C01:cli_sample_list", "ragc listset differs from the samples given to create", det(json!({"listed": listed})));
+        }
+    } else {
+        rep.count("cli_create_reported_error", 1);
+    }
+    let _ = std::fs::remove_dir_all(&d);
 }
